@@ -334,6 +334,18 @@ def main():
                      " mark()\n %s\n+added()\n" % st.replace("\n", "\n "),
                      "-mark()\n+%s\n" % st.replace("\n", "\n+")):
             add("stmt-vocab", ("@@\n@@\n" + form).encode(), {"a.go": src})
+    # change headers in every shape: only blanks between the two '@', tabs, names of every form, stray characters, runs of '@'
+    HDR = ["@@", "@ @", "@  @", "@\t@", "@ \t @", "@@ ", " @@", "@ name @", "@name@", "@ name@", "@name @", "@ 1oo @", "@ a b @", "@ a-b @", "@ _ @",
+           "@ \xc3\xa9t\xc3\xa9 @", "@ @ @", "@@@", "@@@@", "@ @@", "@@ @", "@", "@ ", "@ name", "@@ name", "@ name @ x", "@\x00@", "@ \x00 @", "@ . @", "@ name @\r",
+           "@  \t  @  ", "@ n\tm @", "@ @\t", "@\xc2\xa0@", "@ \xe2\x80\x8b @"]
+    hsrc = {"a.go": b"package p\n\nfunc h() { foo(1) }\n"}
+    for h1 in HDR:
+        for h2 in (["@@", h1] if h1 != "@@" else ["@@"]):
+            body = "var x expression\n" + h2 + "\n-foo(x)\n+bar(x)\n"
+            pt = (h1 + "\n" + body).encode("latin-1")
+            add("header-form", pt, hsrc)
+            add("header-form", b"@@\n@@\n-zz()\n+yy()\n\n" + pt, hsrc)            # as the second change
+            add("header-form", b"# about\n\n" + pt + b"\n" + (h1 + "\n" + h2 + "\n-bar(1)\n+baz(1)\n").encode("latin-1"), hsrc)
     ill = []
     for k in range(len(ILL_TYPED) * (5 if thorough else 2)):
         p, f = ill_typed_case(rng, k)
